@@ -31,6 +31,8 @@ func checkC03(w *World, r *Report) {
 	checkC03RootEscape(w, r, o)
 	checkC03RouteImmutable(w, r)
 	checkC03NoBackdoor(w, r, o)
+	// a published tree object itself is never written again (rule C05.4 repeated: commit must build a new iTree)
+	checkSharedStateAs(w, r, newProto(w), "C03.6")
 }
 
 func checkC03Writes(w *World, r *Report, o *Own) { checkOwnWrites(w, r, o, "C03.1") }
